@@ -190,10 +190,14 @@ func c12ConvergeLate(witness, late bool) {
 	li, lj := -1, -1
 	if late {
 		// which link comes up after the first flood has settled
-		li = verif_choose(c12N - 1)
-		lj = li + 1 + verif_choose(c12N-1-li)
+		li = verif_choose(c12LateN - 1)
+		lj = li + 1 + verif_choose(c12LateN-1-li)
 	}
-	nw := c12BuildLate(c12N, li, lj)
+	n := c12N
+	if late {
+		n = c12LateN
+	}
+	nw := c12BuildLate(n, li, lj)
 	nw.replays = late
 	// exit placement: one agent (any) originates a prefix
 	exit := verif_choose(nw.n)
